@@ -710,9 +710,15 @@ func (fr *Frame) havocLoc(env *Env, loc Expr, st *State) {
 					g.sc.Assume(fmt.Sprintf("(forall ((r Ref)) (! (or (and ((_ is Fld) r) (= (fid r) %d)) (= (select %s r) (select %s r))) :pattern ((select %s r))))", idx, nh.S, old.S, nh.S))
 					st.heaps[key] = nh
 					g.logWholeWrite(key, es, "")
+					if g.frec != nil {
+						*g.frec = append(*g.frec, frameW{key, fmt.Sprintf("(and ((_ is Fld) r) (= (fid r) %d))", idx)})
+					}
 					return
 				}
 				key, es, _ := g.ghostField(name)
+				if g.frec != nil {
+					*g.frec = append(*g.frec, frameW{key, "true"})
+				}
 				old := g.heap(st, key, es)
 				nh := g.sc.Fresh(key, old.Sort)
 				st.heaps[key] = nh
@@ -783,6 +789,9 @@ func (g *Gen) havocElems(st *State, arr string, et types.Type) {
 		g.heapWF(nh.S, s, g.curBase, false)
 		g.sc.Assume(fmt.Sprintf("(forall ((r Ref)) (! (or (= (elemArr r) %s) (= (select %s r) (select %s r))) :pattern ((select %s r))))", arr, nh.S, old.S, nh.S))
 		st.heaps[key] = nh
+		if g.frec != nil {
+			*g.frec = append(*g.frec, frameW{key, "(= (elemArr r) " + arr + ")"})
+		}
 		if key == "H_Int_uint8" {
 			g.bytesFrame(nh.S, old.S, "(not (= (sarr s) "+arr+"))")
 		}
